@@ -134,6 +134,17 @@ def judge(fs, op, res):
     """Apply op to the plain model given the implementation's result `res`. Returns None if the
     result is what the plain model allows, else a reason."""
     a = op.split(",")
+    if a[0] == "rep":
+        # rep,<n>,<op>: op issued n times in a row by the same goroutine; results run-length encoded
+        n, inner = int(a[1]), op.split(",", 2)[2]
+        rs = unrle(res)
+        if rs is None or len(rs) != n:
+            return "rep: %d results expected, got %s" % (n, res[:80])
+        for k, r in enumerate(rs):
+            why = judge(fs, inner, r)
+            if why:
+                return "repetition %d: %s" % (k, why)
+        return None
     f = res.split(",")
     kind = a[0]
 
@@ -365,6 +376,17 @@ def judge(fs, op, res):
             return None if res != "ok" else "flush of a missing directory succeeded"
         return None if res == "ok" else "flush failed with " + res
     return "unknown op " + kind
+
+
+def unrle(res):
+    """'r*k/r2*k2/...' -> [r, r, ..., r2, ...]"""
+    out = []
+    for piece in res.split("/"):
+        r, star, k = piece.rpartition("*")
+        if not star or not k.isdigit():
+            return None
+        out.extend([r] * int(k))
+    return out
 
 
 def parse_snap(s):
@@ -735,6 +757,10 @@ def _sim(fs, op):
     """run op on the steering model assuming the implementation behaves like the plain model"""
     a = op.split(",")
     k = a[0]
+    if k == "rep":
+        for _ in range(int(a[1])):
+            _sim(fs, op.split(",", 2)[2])
+        return
     if k in ("open", "create", "trunc", "close", "mkdir", "rename", "remove", "removeall"):
         judge(fs, op, "ok")
     elif k == "write":
@@ -810,7 +836,7 @@ def gen_det(rng, tier, maxb=None, nev=None):
                     elif q2 < 0.85:
                         op2 = "trunc,%d,%d" % (h2, _tsize(rng, lim, size2))
                     else:
-                        op2 = "seek,%d,0,0" % h2
+                        op2 = "seek,%d,0,%d" % (h2, rng.choice([0, 2, 2]))
                     evs.append("%d.psave,%d,%s,%d.%s" % (w, (1 << 30) - 1, rng.choice("mms"), w2, op2))
                     _sim(fs, op2)
                     continue
@@ -924,10 +950,28 @@ def _gen_writer(rng, tier, w, lim, pro, data):
             emit("write,%d,%s" % (rng.choice(hs), data.take(_wsize(rng, lim)).hex()))
         elif q < 0.65:
             emit("readn,%d,%d" % (rng.choice(hs), rng.choice([1, lim, 2 * lim + 1, 4 * lim])))
-        elif q < 0.77:
+        elif q < 0.72:
             h = rng.choice(hs)
             size = len(fs.h[str(h)].ino.data)
-            emit("seek,%d,%d,0" % (h, rng.choice([0, size, rng.randint(0, size + 1), rng.randint(0, size + 2 * lim)])))
+            wh = rng.choice([0, 0, 1, 2, 2])
+            if wh == 0:
+                off = rng.choice([0, size, rng.randint(0, size + 1), rng.randint(0, size + 2 * lim)])
+            elif wh == 1:
+                off = rng.choice([0, 1, -1, lim, -lim])
+            else:
+                off = rng.choice([0, 0, -1, 1, -size, lim, rng.randint(-size - 1, lim)])
+            emit("seek,%d,%d,%d" % (h, off, wh))
+        elif q < 0.79:
+            # a burst: the same cheap operation many times in a row, so that it overlaps the lock
+            # acquisitions of concurrent Flush/MarshalManifest/Sync callers and completion goroutines
+            h = rng.choice(hs)
+            size = len(fs.h[str(h)].ino.data)
+            cur = mine()
+            inner = rng.choice(["seek,%d,%d,2" % (h, rng.choice([0, 0, -1, lim])), "seek,%d,%d,2" % (h, rng.choice([0, -size])),
+                                "seek,%d,0,1" % h, "seek,%d,%d,0" % (h, rng.randint(0, size + 1)), "hstat,%d" % h,
+                                "readn,%d,1" % h, "readn,%d,%d" % (h, lim),
+                                ("stat,%s" % rng.choice(cur)[2:]) if cur else ("hstat,%d" % h)])
+            emit("rep,%d,%s" % (rng.choice([20, 60, 150, 400]), inner))
         elif q < 0.87:
             h = rng.choice(hs)
             emit("trunc,%d,%d" % (h, _tsize(rng, lim, len(fs.h[str(h)].ino.data))))
@@ -1023,6 +1067,15 @@ def describe(cases, impl):
                 d["ambiguous_skipped"] += 1
         else:
             d["free_cases"] += 1
+            for st in f[5].split("|")[1:]:
+                for o in ([] if st == "-" else st.split(";")):
+                    if o.startswith("rep,"):
+                        d["free_rep_bursts"] = d.get("free_rep_bursts", 0) + 1
+                        if ",seek," in o and o.endswith(",2"):
+                            d["free_rep_seek_end_bursts"] = d.get("free_rep_seek_end_bursts", 0) + 1
+                    elif o.startswith("seek,"):
+                        k = "free_seek_whence_" + o.rsplit(",", 1)[1]
+                        d[k] = d.get(k, 0) + 1
             d["free_failpct"][f[4]] = d["free_failpct"].get(f[4], 0) + 1
             d["free_throttle"][f[2]] = d["free_throttle"].get(f[2], 0) + 1
             ws = str(len(f[5].split("|")) - 1)
